@@ -54,7 +54,7 @@ CHECKS = {
     },
     "C03": {
         "runs": [
-            R(LAB, "^TestC03Tunnel", {"checks": 2500, "timeout": 900}, {"checks": 1500, "shards": 16, "timeout": 3000}, race=True),
+            R(LAB, "^TestC03Tunnel", {"checks": 2500, "timeout": 900}, {"checks": 2400, "shards": 8, "timeout": 3000}, race=True),
         ],
     },
     "C13": {
